@@ -814,12 +814,14 @@ func (b *batch) visitorChurn(g *gen, n int) {
 }
 
 func (b *batch) natholeChurn(g *gen, n int) {
+	var gmu sync.Mutex // the actor's generator is shared with the work-connection handlers of its owners
 	for i := 0; i < n/30 && !b.dead(); i++ {
+		gmu.Lock()
 		name := fmt.Sprintf("%sx%d", b.pfx, g.r.Intn(3))
+		gmu.Unlock()
 		// frps hands the session id of an admitted request to the owner on a work connection: the owner answers
 		// every one with a NatHoleClient whose fields come from the hostile pools (no / one / many mapped
 		// addresses, malformed and out-of-range ones) — sometimes with a plausible one
-		var gmu sync.Mutex
 		owner, err := b.dial(h.PeerOpts{AutoWork: true, WorkHandler: func(p *h.Peer, wc *h.WorkConn) {
 			defer wc.Conn.Close()
 			_ = wc.Conn.SetReadDeadline(time.Now().Add(5 * time.Second))
@@ -857,7 +859,10 @@ func (b *batch) natholeChurn(g *gen, n int) {
 			for r := 0; r < 10; r++ {
 				m := &msg.NewProxy{ProxyName: name, ProxyType: "xtcp", Sk: "k", AllowUsers: []string{"*"}}
 				_, _ = owner.NewProxy(m, 10*time.Second)
-				time.Sleep(time.Duration(g.r.Intn(30)) * time.Millisecond) // leave the registration up for some requests
+				gmu.Lock()
+				up := g.r.Intn(30)
+				gmu.Unlock()
+				time.Sleep(time.Duration(up) * time.Millisecond) // leave the registration up for some requests
 				_ = owner.CloseProxy(name)
 			}
 		}()
